@@ -20,6 +20,8 @@ CONSTANTS MaxSteps,     \* commands per history
                         \* "multi": sessions with several live streams (open, stream, stream, then window changes /
                         \*          stops / searches / lookups on every handle) - ids are renewed on older streams;
                         \* "numeric": open, stream, then two commands whose numeric parameters / ids take the extreme classes;
+                        \* "plugin": a log with file transfers opened with the FileTransfer plugin, then FileTransfer `save`
+                        \*          commands (succeeding and failing ones) mixed with other commands;
                         \* "onepass": every collect mode (all / none / one_pass_streams) x pause / resume x streams and
                         \*          queries with and without the one_pass flag - streams created after messages were released
           RecordHist    \* TRUE only in the emission configs (the history multiplies the state space)
@@ -74,6 +76,11 @@ NumericAlphabet ==
   \cup {Cmd("stream_binary_search", a, t) : a \in (NTimeArgs \cup NIndexArgs), t \in HandleTargets}
   \cup {Cmd(v, a, t) : <<v, a>> \in {<<"stop", "">>, <<"stream_change_window", "ok">>, <<"stream_search", "ok">>}, t \in NumTargets}
 NumericShape(c) == /\ ((nsent = 0) = (c.verb = "open")) /\ (nsent = 1 => c = Cmd("stream", "ok_filt", ""))
+PluginAlphabet ==
+       {Cmd("open", a, "") : a \in {"ok_ft", "ok_ft_nosave", "ok_ft_auto", "ok_plugins_dup"}}
+  \cup {Cmd("plugin_cmd", a, "") : a \in (PluginCmdOkArgs \cup {"rw_cmd", "noplugin"})}
+  \cup {Cmd("pause", "", ""), Cmd("close", "", ""), Cmd("stream", "ok", ""), Cmd("fs", "stat_ok", "")}
+PluginShape(c) == (nsent = 0) = (c.verb = "open")
 OnePassAlphabet ==
        {Cmd("open", a, "") : a \in {"ok", "ok_nocollect", "ok_onepass"}}
   \cup {Cmd(v, "", "") : v \in {"pause", "resume"}}
@@ -93,6 +100,7 @@ FullAlphabet ==
   \cup {Cmd("unknown", a, "") : a \in AUnknown}
 Alphabet == IF Level = "multi" THEN {c \in MultiAlphabet : MultiShape(c)}
             ELSE IF Level = "onepass" THEN {c \in OnePassAlphabet : OnePassShape(c)}
+            ELSE IF Level = "plugin" THEN {c \in PluginAlphabet : PluginShape(c)}
             ELSE IF Level = "numeric" THEN {c \in NumericAlphabet : NumericShape(c)} ELSE FullAlphabet
 
 Init == /\ file = "none" /\ plug = FALSE /\ res = FALSE /\ hs = <<>> /\ pend = <<>> /\ nsent = 0 /\ parsing = "none" /\ hist = <<>>
